@@ -2,7 +2,10 @@ package main
 
 // Extra bounded-exhaustive shapes written by the integrator (templates parsed into the generator's AST).
 
-import "fmt"
+import (
+	"fmt"
+	"strings"
+)
 
 // EnumRegisterZeroLoopShapes: every loop kind as the FIRST statement of a parameterless function / of the main
 // chunk (so the loop body's first local owns register 0 of its frame), creating one closure per iteration that
@@ -317,6 +320,40 @@ emit('g6', get())`
 				}
 			}
 		}
+	}
+	return out
+}
+
+// EnumInheritedHandlerShapes: metamethods are looked up RAW in the metatable: an event that the metatable only
+// "inherits" through its own metatable's __index (class hierarchies: Derived = setmetatable({}, {__index = Base}))
+// does not exist for the operation.  Every event × operand position, with and without a raw handler on the other
+// operand, all under pcall.
+func EnumInheritedHandlerShapes() []*Program {
+	pre := `local function H(tag) return function(...) emit('handler', tag, select('#', ...)) return tag end end
+local function base(tag) return {__add = H(tag), __sub = H(tag), __mul = H(tag), __div = H(tag), __mod = H(tag), __pow = H(tag), __unm = H(tag),
+  __concat = H(tag), __eq = H(tag), __lt = H(tag), __le = H(tag), __call = H(tag), __index = H(tag), __newindex = H(tag)} end
+local Base = base('inherited')
+local Derived = setmetatable({}, {__index = Base})     -- the events are reachable only through Derived's OWN metatable
+local d1, d2 = setmetatable({}, Derived), setmetatable({}, Derived)
+local raw = setmetatable({}, base('raw'))                 -- a value whose metatable has the events itself
+local function try(tag, f) local r = {pcall(f)} emit(tag, r[1], r[1] and r[2] or 'error') end
+`
+	ops := []string{
+		"d1 + 1", "1 + d1", "d1 - d2", "d1 * 2", "d1 / 2", "d1 % 2", "d1 ^ 2", "-d1", "d1 .. 'x'", "'x' .. d1", "d1 .. d2",
+		"d1 == d2", "d1 ~= d2", "d1 < d2", "d1 <= d2", "d1 > d2", "d1()", "d1.field", "d1[1]",
+		"d1 + raw", "raw + d1", "d1 .. raw", "raw .. d1", "d1 < raw", "raw < d1", "d1 <= raw", "d1 == raw", "raw == d1",
+		"raw + 1", "raw .. 'x'", "raw()", "raw.field", "-raw",
+	}
+	var out []*Program
+	for i, op := range ops {
+		src := pre + fmt.Sprintf("try(%d, function() return %s end)\n", i, op)
+		src += "try('set', function() d1.newfield = 5 return rawget(d1, 'newfield') end)\ntry('rawset', function() raw.newfield = 5 return rawget(raw, 'newfield') end)\nreturn 'end'"
+		out = append(out, shapeProgram(src, "shape:inherited-handler", fmt.Sprintf("op:%d", i)))
+	}
+	// the same with the metatable protected by __metatable and with a three-level chain
+	chain := strings.Replace(pre, "local Derived = setmetatable({}, {__index = Base})", "local Mid = setmetatable({}, {__index = Base})\nlocal Derived = setmetatable({__metatable = 'locked'}, {__index = Mid})", 1)
+	for i, op := range ops[:20] {
+		out = append(out, shapeProgram(chain+fmt.Sprintf("try(%d, function() return %s end)\nemit(getmetatable(d1))\nreturn 'end'", i, op), "shape:inherited-handler-chain", fmt.Sprintf("op:%d", i)))
 	}
 	return out
 }
